@@ -14,12 +14,13 @@ mod types;
 mod exec_world;
 mod eng_cache;
 mod eng_load;
+mod eng_conc;
 
 use common::*;
 use std::{fs, io::Write, path::PathBuf};
 
 fn engines() -> Vec<Box<dyn Engine>> {
-    vec![Box::new(eng_rid::RidEngine::default()), Box::new(eng_cache::CacheEngine::default()), Box::new(eng_load::LoadEngine::default())]
+    vec![Box::new(eng_rid::RidEngine::default()), Box::new(eng_cache::CacheEngine::default()), Box::new(eng_load::LoadEngine::default()), Box::new(eng_conc::ConcEngine::default())]
 }
 
 fn main() {
